@@ -1,7 +1,6 @@
 (* C09 proofs, part 3a: the collector with scalar attributes only.
    When no collector statement carries an array-valued attribute, mergeAttrs never appends: every key of the
-   collector statement simply overrides the target's, the table of shared attribute objects never changes, and the
-   pointer sharing is unobservable. The heap model then equals a closed form (cf_eps): every endpoint's attributes
+   collector statement simply overrides the target's. The model then equals a closed form (cf_eps): every endpoint's attributes
    overridden by the action statements naming it, every call statement's attributes overridden by the collector
    call statements with the same target - in collector order, last writer wins - and the closed form is idempotent. *)
 From Coq Require Import List Bool PArith NArith Arith Lia.
@@ -48,14 +47,6 @@ Fixpoint map_calls (f:positive -> positive -> attrs -> attrs) (s:stmt attr) : st
   | SBlock b => SBlock (map (map_calls f) b)
   | SAlt b => SAlt (map (map_calls f) b)
   | x => x
-  end.
-
-Fixpoint no_bad {C} (s:stmt C) : bool :=
-  match s with
-  | SBad => false
-  | SBlock b => forallb no_bad b
-  | SAlt b => forallb no_bad b
-  | _ => true
   end.
 
 Fixpoint calls_ok (P:attrs -> bool) (s:stmt attr) : bool :=
@@ -199,8 +190,6 @@ Definition cf_ep (cs:list (stmt attr)) (cn n:positive) (ep:endpoint attr) : endp
      e_stmts := if Pos.eqb n cn then e_stmts ep else map (cf_stmt cs) (e_stmts ep) |}.
 Definition cf_eps (cs:list (stmt attr)) (cn:positive) (eps:eps_t) : eps_t := map_kv (cf_ep cs cn) eps.
 
-Definition is_coll_stmt {C} (s:stmt C) : bool := match s with SAction _ _ | SCall _ _ _ => true | _ => false end.
-
 Lemma map_calls_id s : map_calls (fun _ _ a => a) s = s.
 Proof.
   induction s using stmt_rect'; cbn [map_calls]; try reflexivity.
@@ -296,14 +285,8 @@ Proof.
   apply cf_ep_idem. rewrite forallb_forall in H. apply (H (n, ep) Hin).
 Qed.
 
-(* ---------------------------------------------------------------- the heap model under scalar collector attributes *)
+(* ---------------------------------------------------------------- the model under scalar collector attributes *)
 Definition scalar_attrs (a:attrs) : bool := forallb (fun p => match snd p with AVal _ => true | AArr _ _ => false end) a.
-Definition mk (ct:ctab) (b:bool) : cstate := {| cs_tab := ct; cs_bad := b |}.
-Definition oc (ct:ctab) (k:positive) (c:cell) : attr := match deref ct k c with Some a => a | None => AVal 1 end.
-Definition obsE (ct:ctab) (ieps:list (positive * endpoint cell)) : eps_t := map_kv (fun _ => obs_ep ct) ieps.
-
-Lemma obs_attrs_kv ct l : obs_attrs ct l = map_kv (oc ct) l.
-Proof. reflexivity. Qed.
 
 Lemma lookup_scalar src k : scalar_attrs src = true -> In k (map fst src) -> exists v, lookup k src = Some (AVal v).
 Proof.
@@ -313,167 +296,55 @@ Proof.
   - cbn in Hin. destruct Hin as [<-|Hin]; [rewrite Pos.eqb_refl in E; discriminate|]. apply IH; assumption.
 Qed.
 
-Lemma merge_key_scalar j ct src k dst v :
-  nth_error ct j = Some src -> lookup k src = Some (AVal v) -> merge_key j k (dst, ct) = (put k (Shared j) dst, ct).
-Proof.
-  intros Hn Hl. unfold merge_key. cbv beta iota. unfold tab_get. rewrite Hn, Hl.
-  destruct (lookup k dst) as [c|]; [|reflexivity]. destruct (deref ct k c) as [[?|? ?]|]; reflexivity.
-Qed.
+Lemma merge_key_scalar src k dst v : lookup k src = Some (AVal v) -> merge_key src k dst = put k (AVal v) dst.
+Proof. intros Hl. unfold merge_key. rewrite Hl. destruct (lookup k dst) as [[?|? ?]|]; reflexivity. Qed.
 
-Lemma merge_scalar j ct (src:list (positive * attr)) dst :
-  nth_error ct j = Some src -> scalar_attrs src = true ->
-  snd (merge j dst ct) = ct /\ obs_attrs ct (fst (merge j dst ct)) = vmerge src (obs_attrs ct dst).
+Lemma merge_scalar (src dst:attrs) : scalar_attrs src = true -> merge src dst = vmerge src dst.
 Proof.
-  intros Hn Hs. unfold merge, vmerge. rewrite Hn.
-  assert (G : forall ks, (forall k, In k ks -> In k (map fst src)) -> forall dst,
-     snd (fold_left (fun st k => merge_key j k st) ks (dst, ct)) = ct /\
-     obs_attrs ct (fst (fold_left (fun st k => merge_key j k st) ks (dst, ct))) =
-     fold_left (fun d k => match lookup k src with Some v => put k v d | None => d end) ks (obs_attrs ct dst)).
-  { induction ks as [|k ks IH]; intros Hin d; [split; reflexivity|]. cbn [fold_left].
+  intros Hs. unfold merge, vmerge.
+  assert (G : forall ks, (forall k, In k ks -> In k (map fst src)) -> forall d,
+     fold_left (fun d k => merge_key src k d) ks d =
+     fold_left (fun d k => match lookup k src with Some v => put k v d | None => d end) ks d).
+  { induction ks as [|k ks IH]; intros Hin d; [reflexivity|]. cbn [fold_left].
     destruct (lookup_scalar src k Hs (Hin k (or_introl eq_refl))) as [v Hv].
-    rewrite (merge_key_scalar j ct src k d v Hn Hv), Hv.
-    destruct (IH (fun x Hx => Hin x (or_intror Hx)) (put k (Shared j) d)) as [I1 I2]. split; [exact I1|].
-    rewrite I2. f_equal. rewrite !obs_attrs_kv, put_map_kv. f_equal. unfold oc. cbn [deref]. unfold tab_get. rewrite Hn, Hv. reflexivity. }
+    rewrite (merge_key_scalar src k d v Hv), Hv. apply IH. intros x Hx. apply Hin. right. exact Hx. }
   apply G. auto.
 Qed.
 
-Lemma map_st_inv {A S} (f:A -> S -> A * S) l st :
-  Forall (fun x => snd (f x st) = st) l -> map_st f l st = (map (fun x => fst (f x st)) l, st).
+Lemma apply_stmt_scalar (src:attrs) t e s : scalar_attrs src = true -> apply_stmt src t e s = map_calls (g_call src t e) s.
 Proof.
-  induction 1 as [|x r H _ IH]; [reflexivity|]. cbn [map_st map]. fold (map_st f).
-  destruct (f x st) as [x' s1] eqn:E. cbn in H. subst s1. rewrite IH. reflexivity.
+  intros Hs. induction s using stmt_rect'; cbn [apply_stmt map_calls]; try reflexivity.
+  - unfold g_call. destruct (Pos.eqb t t0 && Pos.eqb e e0); [|reflexivity]. rewrite (merge_scalar _ _ Hs). reflexivity.
+  - f_equal. apply map_ext_Forall. exact H.
+  - f_equal. apply map_ext_Forall. exact H.
 Qed.
 
-Lemma forallb_map' {A B} (p:B -> bool) (f:A -> B) l : forallb p (map f l) = forallb (fun x => p (f x)) l.
-Proof. induction l as [|x r IH]; [reflexivity|]. cbn. rewrite IH. reflexivity. Qed.
-Lemma forallb_ext_Forall {A} (p q:A -> bool) l : Forall (fun x => p x = q x) l -> forallb p l = forallb q l.
-Proof. induction 1 as [|x r H _ IH]; [reflexivity|]. cbn. rewrite H, IH. reflexivity. Qed.
-
-Lemma no_bad_obs ct s : no_bad (obs_stmt ct s) = no_bad s.
+Lemma collect_one_scalar cn S eps : scalar_attrs (stmt_attrs S) = true -> collect_one cn S eps = vT cn S eps.
 Proof.
-  induction s using stmt_rect'; cbn [obs_stmt no_bad]; try reflexivity.
-  - rewrite forallb_map'. apply forallb_ext_Forall. exact H.
-  - rewrite forallb_map'. apply forallb_ext_Forall. exact H.
+  intros Hs. destruct S as [t e src|act src| | | |]; cbn [collect_one vT stmt_attrs] in *; try reflexivity.
+  - unfold map_kv. apply map_ext. intros [n ep]. cbn [fst snd]. destruct (Pos.eqb n cn); [reflexivity|]. f_equal. f_equal.
+    apply map_ext. intros s. apply apply_stmt_scalar, Hs.
+  - destruct (lookup act eps); [|reflexivity]. rewrite (merge_scalar _ _ Hs). reflexivity.
 Qed.
 
-Lemma apply_stmt_scalar j t e ct (src:list (positive * attr)) s :
-  nth_error ct j = Some src -> scalar_attrs src = true -> no_bad s = true -> forall bf,
-  snd (apply_stmt j t e s (mk ct bf)) = mk ct bf /\
-  obs_stmt ct (fst (apply_stmt j t e s (mk ct bf))) = map_calls (g_call src t e) (obs_stmt ct s).
+Lemma fold_collect_scalar cn cs : forall eps,
+  forallb (fun s => scalar_attrs (stmt_attrs s)) cs = true ->
+  fold_left (fun x s => collect_one cn s x) cs eps = fold_left (fun X S => vT cn S X) cs eps.
 Proof.
-  intros Hn Hs. induction s using stmt_rect'; intros Hnb bf; cbn [apply_stmt obs_stmt map_calls no_bad] in *; try (split; reflexivity); try discriminate.
-  - unfold g_call. destruct (Pos.eqb t t0 && Pos.eqb e e0); [|split; reflexivity].
-    cbn [mk cs_tab cs_bad]. destruct (merge_scalar j ct src a Hn Hs) as [M1 M2].
-    destruct (merge j a ct) as [a' ct']. cbn [fst snd] in M1, M2. subst ct'. split; [reflexivity|]. cbn [fst obs_stmt]. rewrite M2. reflexivity.
-  - assert (F : Forall (fun x => snd (apply_stmt j t e x (mk ct bf)) = mk ct bf /\
-                                 obs_stmt ct (fst (apply_stmt j t e x (mk ct bf))) = map_calls (g_call src t e) (obs_stmt ct x)) b).
-    { rewrite forallb_forall in Hnb. rewrite Forall_forall in *. intros x Hx. apply (H x Hx (Hnb x Hx)). }
-    rewrite (map_st_inv (apply_stmt j t e) b (mk ct bf)) by (eapply Forall_impl; [|exact F]; intros x [A _]; exact A).
-    split; [reflexivity|]. cbn [fst obs_stmt]. f_equal. rewrite !map_map. apply map_ext_Forall.
-    eapply Forall_impl; [|exact F]. intros x [_ B]. exact B.
-  - assert (F : Forall (fun x => snd (apply_stmt j t e x (mk ct bf)) = mk ct bf /\
-                                 obs_stmt ct (fst (apply_stmt j t e x (mk ct bf))) = map_calls (g_call src t e) (obs_stmt ct x)) b).
-    { rewrite forallb_forall in Hnb. rewrite Forall_forall in *. intros x Hx. apply (H x Hx (Hnb x Hx)). }
-    rewrite (map_st_inv (apply_stmt j t e) b (mk ct bf)) by (eapply Forall_impl; [|exact F]; intros x [A _]; exact A).
-    split; [reflexivity|]. cbn [fst obs_stmt]. f_equal. rewrite !map_map. apply map_ext_Forall.
-    eapply Forall_impl; [|exact F]. intros x [_ B]. exact B.
+  induction cs as [|S cs IH]; intros eps H; [reflexivity|]. cbn in H. apply andb_true_iff in H. destruct H as [HS H].
+  cbn [fold_left]. rewrite (collect_one_scalar cn S eps HS). apply IH, H.
 Qed.
 
 Definition eps_no_bad {C} (eps:list (positive * endpoint C)) : bool := forallb (fun p => forallb no_bad (e_stmts (snd p))) eps.
 
-Lemma eps_no_bad_obs ct ieps : eps_no_bad (obsE ct ieps) = eps_no_bad ieps.
-Proof.
-  unfold eps_no_bad, obsE, map_kv. rewrite forallb_map'. apply forallb_ext_Forall. apply Forall_forall. intros [n ep] _. cbn.
-  rewrite forallb_map'. apply forallb_ext_Forall. apply Forall_forall. intros s _. apply no_bad_obs.
-Qed.
-
-Lemma apply_eps_scalar cn j t e ct (src:list (positive * attr)) :
-  nth_error ct j = Some src -> scalar_attrs src = true -> forall ieps bf, eps_no_bad ieps = true ->
-  snd (apply_eps cn j t e ieps (mk ct bf)) = mk ct bf /\
-  obsE ct (fst (apply_eps cn j t e ieps (mk ct bf))) = vT cn (SCall t e src) (obsE ct ieps).
-Proof.
-  intros Hn Hs. induction ieps as [|[n ep] r IH]; intros bf Hnb; [split; reflexivity|].
-  cbn in Hnb. apply andb_true_iff in Hnb. destruct Hnb as [Hep Hr]. destruct (IH bf Hr) as [I1 I2].
-  cbn [apply_eps]. destruct (Pos.eqb n cn) eqn:E.
-  - destruct (apply_eps cn j t e r (mk ct bf)) as [r' s2]. cbn [fst snd] in *. split; [exact I1|].
-    cbn [vT] in *. unfold obsE, map_kv in *. cbn [map fst snd]. rewrite E. f_equal. exact I2.
-  - unfold apply_stmts.
-    assert (F : Forall (fun x => snd (apply_stmt j t e x (mk ct bf)) = mk ct bf /\
-                                 obs_stmt ct (fst (apply_stmt j t e x (mk ct bf))) = map_calls (g_call src t e) (obs_stmt ct x)) (e_stmts ep)).
-    { rewrite forallb_forall in Hep. apply Forall_forall. intros x Hx. apply apply_stmt_scalar; auto. }
-    rewrite (map_st_inv (apply_stmt j t e) (e_stmts ep) (mk ct bf)) by (eapply Forall_impl; [|exact F]; intros x [A _]; exact A).
-    destruct (apply_eps cn j t e r (mk ct bf)) as [r' s2]. cbn [fst snd] in *. split; [exact I1|].
-    cbn [vT] in *. unfold obsE, map_kv in *. cbn [map fst snd]. rewrite E. f_equal; [|exact I2]. f_equal.
-    unfold obs_ep. cbn [e_attrs e_stmts]. f_equal. rewrite !map_map. apply map_ext_Forall.
-    eapply Forall_impl; [|exact F]. intros x [_ B]. exact B.
-Qed.
-
-Lemma collect_one_scalar cn j ct S ieps :
-  nth_error ct j = Some (stmt_attrs S) -> scalar_attrs (stmt_attrs S) = true -> is_coll_stmt S = true ->
-  eps_no_bad ieps = true ->
-  snd (collect_one cn j S (ieps, mk ct false)) = mk ct false /\
-  obsE ct (fst (collect_one cn j S (ieps, mk ct false))) = vT cn S (obsE ct ieps).
-Proof.
-  intros Hn Hs HS Hnb. destruct S as [t e src|act src| | | |]; try discriminate; cbn [collect_one stmt_attrs] in *.
-  - apply (apply_eps_scalar cn j t e ct src Hn Hs ieps false Hnb).
-  - cbn [vT]. unfold obsE at 2. rewrite lookup_map_kv. destruct (lookup act ieps) as [ep|]; [|split; reflexivity].
-    cbn [mk cs_tab cs_bad]. destruct (merge_scalar j ct src (e_attrs ep) Hn Hs) as [M1 M2].
-    destruct (merge j (e_attrs ep) ct) as [a' ct']. cbn [fst snd] in *. subst ct'. split; [reflexivity|].
-    unfold obsE. rewrite put_map_kv. f_equal. unfold obs_ep. cbn [e_attrs e_stmts]. rewrite M2. reflexivity.
-Qed.
+Lemma forallb_map' {A B} (p:B -> bool) (f:A -> B) l : forallb p (map f l) = forallb (fun x => p (f x)) l.
+Proof. induction l as [|x r IH]; [reflexivity|]. cbn. rewrite IH. reflexivity. Qed.
 
 Lemma eps_no_bad_cf cs cn eps : eps_no_bad eps = true -> eps_no_bad (cf_eps cs cn eps) = true.
 Proof.
   unfold eps_no_bad, cf_eps, map_kv. rewrite forallb_map'. intros H. rewrite forallb_forall in *. intros [n ep] Hin.
   specialize (H _ Hin). cbn in *. destruct (Pos.eqb n cn); [exact H|].
   rewrite forallb_map'. rewrite forallb_forall in *. intros s Hs. apply no_bad_map_calls, H, Hs.
-Qed.
-
-Lemma collect_all_scalar cn ct cs eps0 :
-  ct = map stmt_attrs cs -> sorted eps0 = true -> eps_no_bad eps0 = true ->
-  forall suf pre ieps, cs = pre ++ suf ->
-  forallb is_coll_stmt suf = true -> forallb (fun s => scalar_attrs (stmt_attrs s)) suf = true ->
-  obsE ct ieps = cf_eps pre cn eps0 ->
-  snd (collect_all cn (length pre) suf (ieps, mk ct false)) = mk ct false /\
-  obsE ct (fst (collect_all cn (length pre) suf (ieps, mk ct false))) = cf_eps cs cn eps0.
-Proof.
-  intros Hct Hs0 Hnb0. induction suf as [|S suf IH]; intros pre ieps Hcs Hk Hsc Hobs.
-  - rewrite app_nil_r in Hcs. subst pre. split; [reflexivity|exact Hobs].
-  - cbn in Hk, Hsc. apply andb_true_iff in Hk. apply andb_true_iff in Hsc. destruct Hk as [HkS Hk]. destruct Hsc as [HsS Hsc].
-    cbn [collect_all].
-    assert (Hn : nth_error ct (length pre) = Some (stmt_attrs S)).
-    { subst ct cs. rewrite map_app, nth_error_app2 by (rewrite map_length; lia). rewrite map_length, Nat.sub_diag. reflexivity. }
-    assert (Hnb : eps_no_bad ieps = true).
-    { rewrite <- (eps_no_bad_obs ct), Hobs. apply eps_no_bad_cf, Hnb0. }
-    destruct (collect_one_scalar cn (length pre) ct S ieps Hn HsS HkS Hnb) as [C1 C2].
-    destruct (collect_one cn (length pre) S (ieps, mk ct false)) as [ieps1 st1]. cbn [fst snd] in C1, C2. subst st1.
-    replace (Datatypes.S (length pre)) with (length (pre ++ [S])) by (rewrite app_length; cbn; lia).
-    apply IH; [rewrite <- app_assoc; exact Hcs|exact Hk|exact Hsc|].
-    rewrite C2, Hobs. apply vT_step; assumption.
-Qed.
-
-Lemma obs_load_attrs ct a : obs_attrs ct (load_attrs a) = a.
-Proof. unfold obs_attrs, load_attrs. rewrite map_map. rewrite <- (map_id a) at 2. apply map_ext. intros [k v]. reflexivity. Qed.
-
-Lemma obs_load_stmt ct s : obs_stmt ct (load_stmt s) = s.
-Proof.
-  induction s using stmt_rect'; cbn [load_stmt obs_stmt]; try reflexivity; try (rewrite obs_load_attrs; reflexivity).
-  - f_equal. rewrite map_map. rewrite <- (map_id b) at 2. apply map_ext_Forall. exact H.
-  - f_equal. rewrite map_map. rewrite <- (map_id b) at 2. apply map_ext_Forall. exact H.
-Qed.
-
-Lemma obsE_load ct eps : obsE ct (map (fun p => (fst p, load_ep (snd p))) eps) = eps.
-Proof.
-  unfold obsE, map_kv. rewrite map_map. rewrite <- (map_id eps) at 2. apply map_ext. intros [n [a s]]. cbn [fst snd]. f_equal.
-  unfold obs_ep, load_ep. cbn [e_attrs e_stmts]. rewrite obs_load_attrs. f_equal. rewrite map_map. rewrite <- (map_id s) at 2.
-  apply map_ext. intros x. apply obs_load_stmt.
-Qed.
-
-Lemma set_stmt_attrs_same cs :
-  forallb is_coll_stmt cs = true -> map (fun p => set_stmt_attrs (fst p) (snd p)) (combine cs (map stmt_attrs cs)) = cs.
-Proof.
-  induction cs as [|S cs IH]; intros H; [reflexivity|]. cbn in H. apply andb_true_iff in H. destruct H as [HS H].
-  cbn. rewrite (IH H). f_equal. destruct S; try discriminate; reflexivity.
 Qed.
 
 (* the condition on one application's endpoints, and the collector in closed form *)
@@ -487,22 +358,22 @@ Definition coll_cond (cn:positive) (eps:eps_t) : bool :=
 Definition coll_result (cn:positive) (eps:eps_t) : eps_t :=
   match lookup cn eps with None => eps | Some c => cf_eps (e_stmts c) cn eps end.
 
+Lemma no_panic cn cs eps : forallb is_coll_stmt cs = true -> eps_no_bad eps = true -> collect_panics cn cs eps = false.
+Proof.
+  intros Hk Hnb. unfold collect_panics.
+  assert (A : existsb (fun s => negb (is_coll_stmt s)) cs = false).
+  { clear Hnb. induction cs as [|S cs IH]; [reflexivity|]. cbn in Hk. apply andb_true_iff in Hk. destruct Hk as [HS Hk].
+    cbn. rewrite HS, (IH Hk). reflexivity. }
+  assert (B : forallb (fun p => Pos.eqb (fst p) cn || forallb no_bad (e_stmts (snd p))) eps = true).
+  { unfold eps_no_bad in Hnb. rewrite forallb_forall in *. intros p Hp. rewrite (Hnb p Hp). apply orb_true_r. }
+  rewrite A, B. cbn. apply andb_false_r.
+Qed.
+
 Theorem collector_closed_form cn eps : coll_cond cn eps = true -> collector cn eps = Some (coll_result cn eps).
 Proof.
   unfold coll_cond, coll_result, collector. intros H. apply andb_true_iff in H. destruct H as [H Hc].
   apply andb_true_iff in H. destruct H as [Hs Hnb]. destruct (lookup cn eps) as [c|] eqn:L; [|reflexivity].
-  apply andb_true_iff in Hc. destruct Hc as [Hk Hsc]. set (cs := e_stmts c) in *. set (ct := map stmt_attrs cs).
-  destruct (collect_all_scalar cn ct cs eps eq_refl Hs Hnb cs [] (map (fun p => (fst p, load_ep (snd p))) eps) eq_refl Hk Hsc) as [C1 C2].
-  { rewrite obsE_load. symmetry. apply cf_eps_nil. }
-  cbn [length] in C1, C2. fold (mk ct false).
-  destruct (collect_all cn 0 cs (map (fun p => (fst p, load_ep (snd p))) eps, mk ct false)) as [ieps' st'].
-  cbn [fst snd] in C1, C2. subst st'. cbn [mk cs_bad cs_tab].
-  change (map (fun p => (fst p, obs_ep ct (snd p))) ieps') with (obsE ct ieps'). rewrite C2.
-  assert (Lc : lookup cn (cf_eps cs cn eps) = Some (cf_ep cs cn cn c)).
-  { unfold cf_eps. rewrite lookup_map_kv, L. reflexivity. }
-  rewrite Lc. f_equal.
-  assert (Est : e_stmts (cf_ep cs cn cn c) = cs). { unfold cf_ep. cbn. rewrite Pos.eqb_refl. reflexivity. }
-  rewrite Est. unfold ct. rewrite (set_stmt_attrs_same cs Hk).
-  apply put_same; [unfold cf_eps; rewrite sorted_map_kv; exact Hs|]. rewrite Lc. f_equal.
-  destruct (cf_ep cs cn cn c) as [a s] eqn:E. cbn in Est. cbn. subst s. reflexivity.
+  apply andb_true_iff in Hc. destruct Hc as [Hk Hsc].
+  rewrite (no_panic cn (e_stmts c) eps Hk Hnb). f_equal.
+  rewrite (fold_collect_scalar cn (e_stmts c) eps Hsc). apply vT_fold; assumption.
 Qed.
